@@ -535,3 +535,11 @@ PROPS["C06"].oracle_tokens = PROPS["C06"].oracle_tokens + ["ORACLE_ERROR_NORM_HI
 for _pid in ("C07", "C10"):
     if PROPS[_pid].oracle_tokens is not None:
         PROPS[_pid].oracle_tokens = PROPS[_pid].oracle_tokens + ["ORACLE_ERROR_NORM_HIDES_NAN"]
+
+
+# C03 / C04: exactly factorisable systems with subnormal pivots (family linsub, implementation oracle)
+for _pid in ("C03", "C04"):
+    _g = PROPS[_pid].generate
+    PROPS[_pid].family_driver = dict(PROPS[_pid].family_driver, linsub=("drv_linalg", "plain"))
+    PROPS[_pid].generate = (lambda g: (lambda rng, tier: g(rng, tier) + G.gen_linsub(rng, tier)))(_g)
+    PROPS[_pid].rule += "; family linsub: integer systems A = L0*U0 scaled by 2^-1040 (subnormal pivots, every operation exact): x = x0 exactly"
